@@ -104,7 +104,9 @@ PROPS = {
                       'from the per-call contract (DESIGN 4, C14) and is not a separate machine-checked lemma. User-fixed '
                       'N outside the map raises ValueError (F11, precondition).',
         'trusted': SPECTRUM_TRUST,
-        'extra': [{'name': 'order_slots', 'kind': 'bounded', 'script': 'bounded/order_slots.py'}],
+        'extra': [{'name': 'order_slots', 'kind': 'bounded', 'script': 'bounded/order_slots.py'},
+                  # service documents with N / M fixed, free or mixed in several entries, loaded and planned end to end
+                  {'name': 'nm_requests', 'kind': 'bounded', 'script': 'bounded/nm_requests.py', 'timeout': 2400}],
     },
     'C15': {
         'level': 'proof',
@@ -280,7 +282,9 @@ PROPS = {
         'trusted': ['create_input_spectral_information call-site summary', 'RamanSolver.calculate_stimulated_raman_scattering '
                     '(opaque in estimate_raman_gain)', 'namedtuple._asdict', 'str.lower (uninterpreted; stored methods are its '
                     'fixed points)', 'builtin round (exact decimal rounding)'],
-        'extra': [{'name': 'redesign', 'kind': 'bounded', 'script': 'bounded/redesign.py', 'timeout': 2400}],
+        'extra': [{'name': 'redesign', 'kind': 'bounded', 'script': 'bounded/redesign.py', 'timeout': 2400},
+                  # 'designing the same input twice gives identical output', across interpreter runs (string-hash seeds)
+                  {'name': 'design_repeatable', 'kind': 'bounded', 'script': 'bounded/design_repeatable.py', 'timeout': 1800}],
     },
     'C18': {
         'level': 'other',
